@@ -175,6 +175,45 @@ class ClockSeam:
         return clock
 
 
+class AsyncInterrupt:
+    """The user's interrupt (SIGINT) arriving at an ARBITRARY instant of a call, not only where the library touches a
+    seam: the lines executed in the tree under test are counted with sys.settrace, and at the n-th one
+    KeyboardInterrupt is raised from the trace function, i.e. inside the traced frame - exactly where CPython would
+    deliver a real signal between two bytecodes. With fire_at=None the lines are only counted (measuring run)."""
+
+    def __init__(self, root, fire_at=None, max_lines=5 * 10 ** 6):
+        self.prefix = root.rstrip("/") + "/"
+        self.fire_at = fire_at
+        self.count = 0
+        self.fired = 0
+        self.max_lines = max_lines
+
+    def _local(self, frame, event, arg):
+        if event == "line":
+            self.count += 1
+            if self.count == self.fire_at:
+                self.fired += 1
+                raise KeyboardInterrupt("simulated interrupt at executed line %d (%s:%d)" % (self.count, frame.f_code.co_filename[len(self.prefix):], frame.f_lineno))
+            if self.count > self.max_lines:
+                raise StepBudgetExceeded("traced lines")
+        return self._local
+
+    def _global(self, frame, event, arg):
+        # module bodies (a lazily imported module runs its top level only the first time in a process) are not counted:
+        # the position of the interrupt must not depend on what was imported before
+        if event == "call" and frame.f_code.co_name != "<module>" and frame.f_code.co_filename.startswith(self.prefix):
+            return self._local
+        return None
+
+    def __enter__(self):
+        sys.settrace(self._global)
+        return self
+
+    def __exit__(self, *exc):
+        sys.settrace(None)
+        return False
+
+
 class BinnerOpBudget:
     """Deterministic step counter for code that reads no clock and calls no caller-supplied function: every
     operation of the two bins-managers (the one resource every algorithm works through) is counted, at class
